@@ -161,7 +161,7 @@ def run(ctx: core.Ctx):
     evs = []
     for cid, smp in enumerate(cases):
         smp = [list(s) for s in smp]
-        nv = 4 if ctx.tier == "thorough" else 1
+        nv = 2 if ctx.tier == "thorough" else 1
         for v in range(nv):
             evs.append(event_for_case(smp, cid, nc, ids, (cid + ctx.seed + v) % 4))
         if len({s[0] for s in smp} | {s[1] for s in smp}) >= 2 and any(s[0] != s[1] for s in smp):
